@@ -39,22 +39,52 @@ fn narrow(s: i64) -> i64 {
 
 /// Run one arrival sequence; returns the trace line.
 pub fn run_one(b: u64, arrived: &[(i64, i64)], sync: bool, seed: u64) -> Value {
+    run_one_opts(b, arrived, sync, seed, false)
+}
+
+/// `by_order`: the k-th `get` request the peers receive (whoever receives it) is answered with the k-th item, so the stream
+/// is delivered in the planned order whichever peers the lookup chooses to visit (long streams: more peers than one round)
+pub fn run_one_opts(b: u64, arrived: &[(i64, i64)], sync: bool, seed: u64, by_order: bool) -> Value {
     let mut sim = Sim::new(seed ^ b, NetCfg { lat_min_ms: 1, lat_max_ms: 1, ..Default::default() });
     sim.record = true;
     let mut rng = Rng::new(seed ^ (b << 8));
     let n = arrived.len().max(1);
-    let ids: Vec<[u8; 20]> = (0..n).map(|_| rng.id()).collect();
     let sk = crypto::keypair(3);
     let pk = sk.verifying_key().to_bytes();
     let salt: Option<Vec<u8>> = if b % 2 == 0 { None } else { Some(b"salty".to_vec()) };
+    // by_order: the peers form groups of 16 that are closer and closer to the target (group g shares g leading bits with it);
+    // the client knows group 0 only and the members of a group list their own and the next group, so the lookup walks through
+    // every group and all n peers are asked - one round of a lookup asks the 20 closest only
+    const GROUP: usize = 16;
+    let target = crypto::mutable_target(&pk, salt.as_deref());
+    let ids: Vec<[u8; 20]> = (0..n)
+        .map(|i| {
+            let mut id = rng.id();
+            if by_order {
+                let g = i / GROUP;
+                for bit in 0..=g {
+                    let (byte, mask) = (bit / 8, 0x80u8 >> (bit % 8));
+                    let t = target[byte] & mask;
+                    id[byte] = (id[byte] & !mask) | if bit < g { t } else { t ^ mask };
+                }
+            }
+            id
+        })
+        .collect();
     let all: Vec<([u8; 20], SocketAddrV4)> = ids.iter().enumerate().map(|(i, id)| (*id, SocketAddrV4::new(fake_ip(i), 6881))).collect();
     let nodes = krpc::compact_nodes(&all);
+    let group_nodes: Vec<Vec<u8>> = (0..=(n / GROUP))
+        .map(|g| krpc::compact_nodes(&all.iter().enumerate().filter(|(i, _)| i / GROUP == g || i / GROUP == g + 1).map(|(_, x)| *x).collect::<Vec<_>>()))
+        .collect();
+    let group0 = krpc::compact_nodes(&all.iter().take(GROUP).cloned().collect::<Vec<_>>());
     let items: Vec<(i64, i64)> = arrived.to_vec();
     let salt2 = salt.clone();
     let sk2 = sk.clone();
+    let counter = std::sync::Arc::new(std::sync::atomic::AtomicUsize::new(0));
     let policy: Policy = Box::new(move |me, m, w| {
-        if m.q.as_deref() == Some("get") && me.idx < items.len() {
-            let (seq, val) = items[me.idx];
+        let k = if m.q.as_deref() == Some("get") && by_order { counter.fetch_add(1, std::sync::atomic::Ordering::SeqCst) } else { me.idx };
+        if m.q.as_deref() == Some("get") && k < items.len() {
+            let (seq, val) = items[k];
             let seq = wide(seq);
             let vb = val_bytes(val);
             let sig = crypto::sign_mutable(&sk2, seq, &vb, salt2.as_deref());
@@ -65,12 +95,22 @@ pub fn run_one(b: u64, arrived: &[(i64, i64)], sync: bool, seed: u64) -> Value {
                 ("seq", B::Int(seq as i128)),
             ];
             // peer i answers after 20 + 15*i ms: arrival order = index order
-            return Reply::One(lookup_reply(&nodes, me, m, w, &extra, true), 20 + 15 * me.idx as u64);
+            let listed = if by_order { &group_nodes[me.idx / GROUP] } else { &nodes };
+            // (a request expires after 500 ms at the earliest - socket.rs MIN_REQUEST_TIMEOUT -, and a reply to an expired
+            // request is not part of the lookup: every reply of a long stream stays well below that)
+            return Reply::One(lookup_reply(listed, me, m, w, &extra, true), if by_order { 20 + 5 * k.min(80) as u64 } else { 20 + 15 * k as u64 });
+        }
+        if by_order && m.q.as_deref() == Some("get") {
+            return Reply::One(lookup_reply(&group_nodes[me.idx / GROUP], me, m, w, &[], true), 20 + 5 * k.min(80) as u64);
+        }
+        if by_order && m.q.as_deref() == Some("find_node") {
+            // the bootstrap lookup learns group 0 only
+            return Reply::One(lookup_reply(&group0, me, m, w, &[], false), 1);
         }
         Reply::Default
     });
     let net = FakeNet::install(&mut sim, &ids, policy);
-    let boot = if arrived.is_empty() { vec![net.bootstrap()[0].clone()] } else { net.bootstrap() };
+    let boot = if arrived.is_empty() { vec![net.bootstrap()[0].clone()] } else if by_order { net.bootstrap().into_iter().take(GROUP).collect() } else { net.bootstrap() };
     let c = sim.add_node(NodeOpts::client(private_ip(1), &boot).threaded());
     sim.run_for(3000); // initial bootstrap lookup settles
     let log_start = sim.log.len();
@@ -127,7 +167,12 @@ pub fn run_one(b: u64, arrived: &[(i64, i64)], sync: bool, seed: u64) -> Value {
             // leak the helper; the node is shut down below which ends the stream
         }
     }
-    // arrival order as seen on the wire: authentic mutable replies delivered to the client during the call
+    // the lookup goes on in the node even when the call has returned (a fold that stops reading early): let every reply
+    // that is under way arrive.  On a call that returns at the end of the lookup nothing is under way any more
+    if !hung {
+        sim.run_for(1000);
+    }
+    // arrival order as seen on the wire: authentic mutable replies delivered to the client during the lookup
     let caddr = sim.nodes[c].addr;
     let mut arr: Vec<(u64, i64, i64)> = vec![];
     for r in &sim.log[log_start..] {
@@ -156,6 +201,7 @@ pub fn run_one(b: u64, arrived: &[(i64, i64)], sync: bool, seed: u64) -> Value {
     json!({"e":"run","b":b,"flavour": if sync {"sync"} else {"async"},
         "arrived": arr.iter().map(|(_, s, v)| json!([s, v])).collect::<Vec<_>>(),
         "planned": arrived.iter().map(|(s, v)| json!([s, v])).collect::<Vec<_>>(),
+        "by_order": by_order,
         "status": if hung { "hang" } else if result == json!([-2, -2]) { "panic" } else { "ok" },
         "result": result, "hung": hung})
 }
@@ -184,6 +230,13 @@ pub fn run(args: &Args) -> i32 {
                 if arrived.len() >= 2 {
                     distinct.insert(format!("{arrived:?}"));
                 }
+                if g["by_order"].as_bool() == Some(true) {
+                    // replay of a long stream
+                    let line = run_one_opts(b, &arrived, args.u64("sync-every", 4) == 1, seed, true);
+                    out.line(&line);
+                    b += 1;
+                    continue;
+                }
                 emit(arrived.clone(), false, &mut out, &mut samples, &mut b);
                 if i as u64 % stride == 0 {
                     emit(arrived, true, &mut out, &mut samples, &mut b);
@@ -194,10 +247,39 @@ pub fn run(args: &Args) -> i32 {
     // random longer streams
     let mut rng = Rng::new(seed.wrapping_mul(1234567));
     for i in 0..args.u64("random", 40) {
-        let n = rng.range(5, if args.thorough() { 30 } else { 12 }) as usize;
-        let arrived: Vec<(i64, i64)> = (0..n).map(|_| (rng.below(6) as i64, rng.range(1, 3) as i64)).collect();
+        let n = rng.range(5, if args.thorough() { 60 } else { 40 }) as usize;
+        // every other stream draws from two or three items only (replicas that mostly agree: long runs of identical copies)
+        let alphabet: Vec<(i64, i64)> = if i % 2 == 0 { vec![] } else { (0..rng.range(2, 3)).map(|_| (rng.below(6) as i64, rng.range(1, 3) as i64)).collect() };
+        let arrived: Vec<(i64, i64)> = (0..n).map(|_| if alphabet.is_empty() { (rng.below(6) as i64, rng.range(1, 3) as i64) } else { *rng.pick(&alphabet) }).collect();
         distinct.insert(format!("{arrived:?}"));
-        emit(arrived, i % 5 == 0, &mut out, &mut samples, &mut b);
+        if n > 12 {
+            let line = run_one_opts(b, &arrived, i % 5 == 0, seed, true);
+            out.line(&line);
+            b += 1;
+        } else {
+            emit(arrived, i % 5 == 0, &mut out, &mut samples, &mut b);
+        }
+    }
+    // stale majorities: k identical copies of one item (as many replicas holding the old version), then a better one (greater
+    // seq / same seq and greater value), optionally followed by more copies - a fold that stops reading once "enough" copies
+    // agree, or that counts confirmations, only shows with k around the bucket size
+    if args.u64("random", 40) > 0 {
+        let ks: &[usize] = if args.thorough() { &[3, 8, 15, 18, 19, 20, 21, 22, 25, 30, 40] } else { &[8, 19, 20, 21, 25] };
+        let mut j = 0u64;
+        for &k in ks {
+            for better in [(2i64, 1i64), (1, 3), (5, 2)] {
+                for tail in [0usize, 2] {
+                    let mut arrived: Vec<(i64, i64)> = vec![(1, 2); k];
+                    arrived.push(better);
+                    arrived.extend(std::iter::repeat((1, 2)).take(tail));
+                    distinct.insert(format!("{arrived:?}"));
+                    let line = run_one_opts(b, &arrived, j % 3 == 0, seed, true);
+                    out.line(&line);
+                    b += 1;
+                    j += 1;
+                }
+            }
+        }
     }
     out.finish();
     let summary = json!({"runs": b, "distinct_nontrivial": distinct.len(), "samples": samples});
